@@ -552,6 +552,9 @@ static bool process_line(AsmState *state, const char *line, AsmResult *result) {
             }
             state->patch_count = new_count;
 
+            /* Labels are per function: the table starts empty for the next one */
+            state->label_count = 0;
+
             return true;
         }
 
